@@ -71,6 +71,7 @@ def _rules():
         "liveness": [
             lambda R, c, rid: c17.rule_c(R, c, rid),
             lambda R, c, rid: c17.rule_d(R, c, rid),
+            lambda R, c, rid: shared.gap_scan_state(R, c, rid),
         ],
         "lookup": [
             lambda R, c, rid: shared.lookup_slices(R, c, rid),
@@ -135,10 +136,11 @@ DEPENDS = {
     "C03": ["splice", "conflict", "lookup", "content", "map-api", "text-units"],
     "C04": ["splice", "dependency", "stash-deletes", "lookup", "content", "block-iter", "update-events"],
     "C05": ["conflict", "squash", "splice", "dependency", "map-api", "merge", "delete-set", "update-events"],
-    "C06": ["dependency", "delete-set", "slice", "partial", "lookup", "content", "merge", "state-vector"],
+    "C06": ["dependency", "delete-set", "slice", "partial", "lookup", "content", "merge", "state-vector", "liveness"],
     "C07": ["delete-set", "slice", "partial", "export", "liveness", "block-wire", "state-vector"],
     "C08": ["slice", "delete-set", "partial", "block-wire", "state-vector"],
     "C09": ["slice", "partial", "content", "identity", "weak-wire"],
+    "C11": ["liveness"],
     "C12": ["splice", "squash", "lookup"],
     "C13": ["splice", "delete-set", "lookup", "content", "export", "liveness", "state-vector"],
     "C14": ["splice", "liveness", "lookup", "redone", "block-iter", "identity"],
